@@ -363,9 +363,11 @@ class World:
     def _mk_builtins(self):
         B = self.builtins
 
+        TYPES = ("int", "str", "float", "bool", "tuple", "list", "dict", "set")
+
         def reg(name):
             def deco(fn):
-                B[name] = Builtin(name, fn)
+                B[name] = ExtType(name, fn) if name in TYPES else Builtin(name, fn)
                 return fn
             return deco
 
@@ -604,7 +606,6 @@ class World:
         for n in ("ValueError", "TypeError", "KeyError", "IndexError", "Exception", "StopIteration",
                   "AttributeError", "ZeroDivisionError", "OverflowError", "AssertionError"):
             B[n] = ExtType(n)
-        B["int"].as_type = ExtType("int")
         B["True"] = True
         B["False"] = False
         B["None"] = None
